@@ -445,9 +445,11 @@ func Harness_C03_SealRange() {
 	zzsym.Assert(p.committed == hw && len(p.records) == n, "sealed proposal does not carry hw / all records")
 	zzsym.Assert(m.StructurallyValid() && m.ValidFor(f.LEO, n), "sealed manifest is not valid for the frontier")
 	// the sealed records are frozen: later changes by the caller do not reach them
-	old := p.records[0].Payload[0]
-	records[0].Payload[0] = old + 1
-	zzsym.Assert(p.records[0].Payload[0] == old, "sealed proposal aliases the caller's payload")
+	if len(records[0].Payload) > 0 && len(p.records[0].Payload) > 0 { // thorough also draws empty payloads
+		old := p.records[0].Payload[0]
+		records[0].Payload[0] = old + 1
+		zzsym.Assert(p.records[0].Payload[0] == old, "sealed proposal aliases the caller's payload")
+	}
 }
 
 // ---------------------------------------------------------------------------------------------
